@@ -66,3 +66,16 @@ package metadata
 //@   ensures forall k v1.ResourceName :: !(k in result.Allocated) && !(k in result.Requested)
 //@   ensures !result.Preemptible
 //@ end
+
+// Property C20: "sums over its pods by phase": a pod that is neither Pending nor Running contributes
+// nothing (empty requested and allocated lists, no error, no API call).
+// (what an active pod contributes - the fold over its containers plus GPU-sharing/DRA extraction -
+//  needs recursive sums over the heap and API-client calls: not claimed, see report)
+//@ func GetPodMetadata
+//@   props C20
+//@   requires pod != nil
+//@   modifies *
+//@   ensures [inactiveCountsNothing] old(pod.Status.Phase != v1.PodPending && pod.Status.Phase != v1.PodRunning) ==> result1 == nil && result0 != nil && (forall k v1.ResourceName :: !(k in result0.RequestedResources) && !(k in result0.AllocatedResources))
+//@   ensures [inactiveNoSideEffect] old(pod.Status.Phase != v1.PodPending && pod.Status.Phase != v1.PodRunning) ==> pod.Status.Phase == old(pod.Status.Phase)
+//@   ensures [errorMeansNoMetadata] result1 != nil ==> result0 == nil
+//@ end
